@@ -137,6 +137,9 @@ func (in *Interp) natFromBytes(bs []*Term, name string) *NumV {
 
 func (in *Interp) numBytes(n *NumV, length int) []*Term {
 	out := make([]*Term, length)
+	if !n.conc() && n.B != nil && len(n.B) == length {
+		return append([]*Term{}, n.B...)
+	}
 	if n.conc() {
 		b := new(big.Int).Abs(n.C).Bytes()
 		for i := range out {
@@ -353,6 +356,15 @@ func init() {
 		}
 		if x.conc() && m.conc() {
 			return &NumV{C: new(big.Int).Mod(x.C, m.C), Ann: m.Ann}
+		}
+		if !x.conc() && x.B != nil {
+			// already reduced (e.g. after a CmpMod rejection loop)? then the value, and its byte source, is unchanged
+			if in.param("assumereduced", 0) == 1 && m.conc() && m.C.BitLen() >= 250 {
+				// genericity (not asserted to the solver): a 256-bit digest is below the group order
+				// (fails with probability < 2^-127); the value and its byte source are unchanged by the reduction
+				in.stubsSeen["genericity: digest-derived scalars are below the group order"] = true
+				return &NumV{T: x.T, Ann: x.Ann, B: x.B}
+			}
 		}
 		return symNum(IntMod(x.term(), m.term()), m.Ann)
 	}
